@@ -27,10 +27,14 @@ CHECKS = {
                 'order, a parent precedes its children, each node is listed in the children of exactly its parent); every node '
                 'that has a header points to a HeaderToken node and either is it or inherits it from its parent, so a whole spine '
                 'path through splits and joins carries the header of its column; a cell beyond the live spine paths makes the '
-                'step raise. WHICH parent a cell gets (the cell above on the same spine path) and literal text are decided by comparing the whole tree of kernpy with '
+                'step raise; cell text is literal - for EVERY grid of cells free of tab / LF / CR (quotes, commas, spaces, any other byte) '
+                'both line readers return that grid cell for cell (file_grid_literal / text_grid_literal), and the reader '
+                'configuration the model stands for (tab delimiter, QUOTE_NONE, splitlines / newline=\'\') is an obligation on '
+                'the arguments the translator reads out of import_string / import_file on every run. WHICH parent a cell gets '
+                '(the cell above on the same spine path) is decided by comparing the whole tree of kernpy with '
                 'the model and with an independent reference spine-path model on every spine-operator layout up to depth 3 '
-                '(exhaustive), literal cells and surplus rows.',
-        'note': _COMMON_NOTE + 'csv.reader / str.splitlines are modelled from their documented behaviour (QUOTE_NONE, tab delimiter).',
+                '(exhaustive), literal cells and surplus rows, through kp.loads AND through kp.load of a real file.',
+        'note': _COMMON_NOTE + 'csv.reader / str.splitlines are modelled from their documented behaviour (QUOTE_NONE, tab delimiter); the arguments actually passed are checked against that on every run (gen/ReaderGen.v).',
         'technique': 'Coq proof by induction over rows (stage-table invariant) + exhaustive-layout model/impl correspondence of the whole tree + reference spine-path monitor',
     },
     'C03': {
@@ -57,11 +61,14 @@ CHECKS = {
     'C04': {
         'text': 'Theorems in coq/props/C04.v for every token, category selection and clef: each plain tokenizer IS its extended '
                 'counterpart followed by separator removal (kern/ekern, bkern/bekern, akern/aekern), the basic encoding is the '
-                'per-note reduction of the extended text, the factory dispatches each encoding to its tokenizer and the header '
+                'per-note reduction of the extended text and - for every chord of any number of notes, every single note / rest and '
+                'every category selection - that reduction yields the same notes in the same order joined by single spaces, '
+                'each reduced to exactly its duration-and-pitch part (chord_bekern_note_by_note: no note lost, merged or moved; '
+                'string-level split/join lemmas), the factory dispatches each encoding to its tokenizer and the header '
                 'is ** + prefix + type (tables regenerated from tokenizers.py), non-note tokens with separator-free text are '
                 'identical in the six encodings. Document level: kernpy vs model and vs the generator oracle on documents x six '
                 'encodings x category selections, plus the relations between kernpy\'s six exports.',
-        'note': _COMMON_NOTE + 'The per-note string reduction (split on the decoration separator) is modelled, not proved equal to "drop the decoration sub-tokens"; that equality is checked by the oracle monitor.',
+        'note': _COMMON_NOTE + 'The note-by-note theorem assumes sub-token texts free of space / separator bytes and non-empty duration / pitch texts (note_subs_ok), which holds for everything the scanner model builds; outside it the reduction is decided by the oracle monitor.',
         'technique': 'Coq proof (definitional equalities + regenerated dispatch tables) + model/impl correspondence + oracle monitor over six encodings',
     },
     'C05': {
@@ -147,7 +154,8 @@ CHECKS = {
     'C20': {
         'text': 'PARTIAL. Theorems in coq/props/C20.v (pure part): the file reader and the text reader of the importer model split '
                 'EVERY byte string free of the extra str.splitlines separators into the same rows, hence load = loads on the '
-                'model (induction over the bytes). open(), encodings, makedirs, argparse, Path.glob and process exit codes cannot '
+                'model (induction over the bytes); the csv / open arguments of both readers are an obligation regenerated from the '
+                'source. open(), encodings, makedirs, argparse, Path.glob and process exit codes cannot '
                 'be expressed in an executable Gallina model: they are decided by real temporary files and python -m kernpy '
                 'subprocesses (load vs loads on LF/CRLF/CR files, dump vs dumps into missing directories, kern2ekern / '
                 'ekern2kern single file and directory mode with and without -r, ekern-kern-ekern round trip). Known finding K9.',
@@ -161,7 +169,7 @@ CHECKS = {
                 'generated table (about 60 sites in more than 100 functions); a new write to a node, token, option object or '
                 'module constant turns an entry false and breaks the theorem; (2) frame theorems on the functional model (state '
                 'after any history = state before; outputs = outputs on a fresh import; two imports indistinguishable). '
-                'Correspondence and monitors: random histories of 3..12 read-only operations on kernpy with deep snapshots of the '
+                'Correspondence and monitors: random histories of 3..12 read-only operations (incl. up to 4 interleaved live measure iterators) on kernpy with deep snapshots of the '
                 'document graph and module constants before/after, every result against a freshly imported copy and against the '
                 'model.',
         'note': _COMMON_NOTE + 'Partial: the freshness classification is a syntactic may-alias analysis in tools/translate_effects.py (trusted); object identity / aliasing in CPython cannot be exhibited by the Gallina model.',
